@@ -360,6 +360,8 @@ func cmdCheck(args []string) int {
 	if o.only == "" {
 		if bc := runBounded(o, ev); bc == 1 {
 			code = 1
+		} else if bc == 2 && code == 0 {
+			code = 2 // a stand-in that could not be run leaves its part of the property undecided
 		}
 	}
 	ev.WallS = time.Since(t0).Seconds()
@@ -566,7 +568,7 @@ func runCheck(o *Options) (int, *Evidence) {
 		if funcHasTag(fsq, o.prop) {
 			funcTagged[fi.name()] = true
 		}
-		if fsq.MayDiverge {
+		if fsq.MayDiverge || fsq.MayDivergeFor[o.prop] {
 			divergeOK[fi.name()] = true
 		}
 		x := func() (x *Exec) {
@@ -1282,7 +1284,7 @@ func runBounded(o *Options, ev *Evidence) int {
 	if len(list) > 0 {
 		ev.Coverage["bounded_stand_ins"] = list
 		if code == 0 {
-			fmt.Printf("OK property=%s bounded stand-ins=%d (labelled bounded, not counted as proved)\n", o.prop, len(list))
+			fmt.Printf("BOUNDED-OK property=%s bounded stand-ins=%d held on every case of their scope (labelled bounded, not counted as proved)\n", o.prop, len(list))
 		}
 	}
 	return code
